@@ -103,6 +103,10 @@ module Pos :
 
 module N :
  sig
+  val succ_double : n -> n
+
+  val double : n -> n
+
   val eqb : n -> n -> bool
 
   val to_nat : n -> nat
@@ -388,10 +392,28 @@ val dec_bits : term -> nat option
 
 val dec_binary : term -> nat option
 
+val bits_of_pos : positive -> bool list
+
+val bits_of_N : n -> bool list
+
+val binary_N : n -> term
+
+val dec_bits_N : term -> n option
+
+val dec_binary_N : term -> n option
+
+val n_of_bits_msb : bool list -> n
+
 type term_error =
 | NotVar
 | NotAbs
 | NotApp
+
+type r = (term * nat) option
+
+val bind : r -> (term -> nat -> r) -> r
+
+val ret : term -> nat -> r
 
 val update_free_variables : nat -> nat -> term -> term
 
@@ -405,25 +427,19 @@ val limit_hit : nat -> nat -> bool
 
 val is_reducible : term -> nat -> nat -> bool
 
-type r = (term * nat) option
-
-val bind : r -> (term -> nat -> r) -> r
-
-val ret : term -> nat -> r
+val beta_app : nat -> nat -> nat -> term -> r
 
 val beta_cbn : nat -> nat -> nat -> term -> r
 
-val beta_nor : nat -> nat -> nat -> term -> r
-
 val beta_cbv : nat -> nat -> nat -> term -> r
-
-val beta_app : nat -> nat -> nat -> term -> r
 
 val beta_hap : nat -> nat -> nat -> term -> r
 
 val beta_hsp : nat -> nat -> nat -> term -> r
 
 val beta_hno : nat -> nat -> nat -> term -> r
+
+val beta_nor : nat -> nat -> nat -> term -> r
 
 val reduce_m : nat -> order -> nat -> term -> r
 
